@@ -17,7 +17,7 @@ Definition names_ok (o : op) : bool :=
   | OAddIndex t i _ _ => ok t && ok i
   | OUpdateTable t _ create delete => ok t && match create with Some d => ok (id_name d) | None => true end
                                     && match delete with Some n => ok n | None => true end
-  | OBatchWrite reqs => forallb (fun tr => ok (fst tr)) reqs
+  | OBatchWrite reqs => negb (match reqs with [] => true | _ => false end) && forallb (fun tr => ok (fst tr)) reqs
   | _ => true
   end.
 
@@ -183,7 +183,10 @@ Proof.
        q_keycond := []; q_filter := opt_str filter; q_cond := None; q_forward := true; q_scan := true |}) as [-> _].
     destruct (run_search_state V2 c t {| q_index := index; q_values := vals; q_names := names; q_limit := limit; q_esk := esk;
        q_keycond := []; q_filter := opt_str filter; q_cond := None; q_forward := true; q_scan := true |}) as [-> _]. reflexivity.
-  - unfold batch_write. destruct (_ && negb (forallb wreq_ok (flat_map snd reqs))); auto.
+  - apply andb_true_iff in Hn as [Hne Hn]. unfold batch_write, v1_empty_batch.
+    assert ((match c_failure c with Some _ => false | None => match reqs with [] => true | _ :: _ => false end end) = false) as ->
+      by (destruct (c_failure c); auto; destruct reqs; [discriminate|reflexivity]).
+    unfold batch_write_core. destruct (_ && negb (forallb wreq_ok (flat_map snd reqs))); auto.
     destruct (_ && (batch_limit <? List.length (flat_map snd reqs))); auto.
     destruct (match c_failure c with Some _ => [] | None => flat_map (prevalidate_table c) reqs end); auto.
     destruct (batch_tables_flav reqs c [] Hn) as [E1 E2].
